@@ -414,4 +414,7 @@ func TestC11(t *testing.T) {
 	h.Run(c, "nilbind", c.N(3000, 20000), genNilBind, oracleNilBind)
 	c.Rule("parallel: a script function (1-3 parameters; returns its first parameter, their sum, or their joined text) handed to a Go function as func(int64...) interface{} and invoked from 2/4/8 goroutines at once, 200-3000 calls each with arguments unique to the call, GOMAXPROCS 2/4/16; every invocation must return the value computed from its own arguments; non-trivial = at least 2 goroutines")
 	h.Run(c, "parallel", c.N(60, 400), genParallel, oracleParallel)
+	c.Rule("reconv: one script list or map handed to a Go function ([]int64 / []float64 / []string / map[string]int64 parameter) 2-4 times and changed in place between the calls; every call must receive the container as it is at that moment; all cases non-trivial. arrayptr: a list of 0-5 elements (untyped or []int64) passed to a Go parameter of type [3]int64, [0]int64, *[3]int64 or *[3]interface{}: an error or an exact image, never a panic")
+	h.Run(c, "reconv", c.N(4000, 30000), genReconv, oracleReconv)
+	h.Run(c, "arrayptr", c.N(1500, 8000), genArrayPtr, oracleArrayPtr)
 }
